@@ -111,6 +111,16 @@ def describe_arr(a):
     return np.where(np.isnan(a), None, a).tolist() if a.dtype.kind == 'f' and np.isnan(a).any() else a.tolist()
 
 
+def report(ctx, signature, what, replay, found_input=True):
+    """ctx.violation, once per signature and run (one replay file per failing call site)"""
+    seen = ctx.__dict__.setdefault('_c09_reported', set())
+    if signature in seen:
+        ctx.stat('violations', 'further occurrences of ' + signature)
+        return
+    seen.add(signature)
+    ctx.violation(signature, what, replay, found_input=found_input)
+
+
 class Quiet:
     def __enter__(self):
         self.c = warnings.catch_warnings()
@@ -233,7 +243,7 @@ def section_bkg(ctx, cases, meta):
             ctx.count_case(desc, len(h) > 1)
             ctx.stat('bkg', f"thr={cfg['thrk']},filter={'1x1' if flags[2] else 'NxM'},{cfg['interp']}")
             for (k, attr, what) in bad:
-                ctx.violation(f'Background2D.{attr}:{what.split()[0]}',
+                report(ctx, f'Background2D.{attr}:{what.split()[0]}',
                               f'Background2D.{attr} {what} after reading {[BREADS[r] for r in h[:k]]} '
                               f'(filter_threshold={cfg["thr"]}, filter_size={cfg["fsize"]})',
                               dict(desc, step=k, cmd='bin/check C09 --replay <this file>'))
@@ -396,7 +406,7 @@ def section_prof(ctx, cases, meta):
             ctx.count_case(desc, any(o >= 4 for o in h))
             ctx.stat('prof', f"{cfg['cls']},{cfg['kind']}")
             for (k, name, what) in bad:
-                ctx.violation(f"{cfg['cls']}.{name}:order-dependent",
+                report(ctx, f"{cfg['cls']}.{name}:order-dependent",
                               f"{cfg['cls']}.{name} {what}; history {[POPS[o] for o in h[:k + 1]]}",
                               dict(desc, step=k, cmd='bin/check C09 --replay <this file>'))
             drc = 'None' if dexc != 0 else coq(Some(farr(dr)))
@@ -560,7 +570,7 @@ def section_aper(ctx, cases, meta):
             ctx.count_case(desc, any(o[0] == 'set' for o in ops) and any(o[0] == 'read' for o in ops))
             ctx.stat('aper', clsname)
             for (k, nm, what) in bad:
-                ctx.violation(f'{clsname}.{nm}:after-reassignment', f'{clsname}.{nm} {what}',
+                report(ctx, f'{clsname}.{nm}:after-reassignment', f'{clsname}.{nm} {what}',
                               dict(desc, step=k, cmd='bin/check C09 --replay <this file>'))
             cases.append(f'CAper {coq(le)} {coq(la)} {coq(obs)}')
             meta.append(('aper', desc, bool(bad)))
@@ -600,7 +610,7 @@ def section_aper(ctx, cases, meta):
         ctx.count_case(desc, True)
         ctx.stat('aper', 'LocalBackground')
         for (k, what) in bad:
-            ctx.violation('LocalBackground.__call__:repeated', f'LocalBackground call {k} {what}', desc)
+            report(ctx, 'LocalBackground.__call__:repeated', f'LocalBackground call {k} {what}', desc)
         cases.append(f'CAper true true {coq(obs)}')
         meta.append(('aper', desc, bool(bad)))
 
@@ -750,7 +760,7 @@ def section_psf(ctx, cases, meta):
             for (k, what) in bad:
                 sig = (f"{desc['machine']}.grouper:replaced-by-None" if what.startswith('GROUPER')
                        else f"{desc['machine']}.__call__:after-earlier-call")
-                ctx.violation(sig,
+                report(ctx, sig,
                               f"{desc['machine']} call {k} {what}; calls (image, init_params kind, columns) = {h[:k + 1]}",
                               dict(desc, step=k, cmd='bin/check C09 --replay <this file>'))
             if any(c[1] == 3 for c in h):
@@ -807,14 +817,14 @@ def section_finders(ctx):
                     kernels.append(np.array(obj.kernel))
                     ctx.support('StarFinder kernel normalisation idempotent (bitwise)')
                     if not same(kernels[-1], kernels[0]):
-                        ctx.violation('StarFinder.kernel:normalisation-not-idempotent',
+                        report(ctx, 'StarFinder.kernel:normalisation-not-idempotent',
                                       f'StarFinder.kernel after call {k} differs from its value after the first call',
                                       dict(desc, step=k))
                 if d not in fresh:
                     with Quiet():
                         fresh[d] = finder_make(kind).find_stars(psf_image(d))
                 if exc or not same(res, fresh[d]):
-                    ctx.violation(f'{kind}.find_stars:repeated-call',
+                    report(ctx, f'{kind}.find_stars:repeated-call',
                                   f'{kind} call {k} on image {d} ' + ('raises' if exc else 'differs from a fresh finder') +
                                   f' after images {h[:k]}', dict(desc, step=k))
 
@@ -879,6 +889,9 @@ def ell_run(g0, calls, cache):
             bad.append((k, f'raises (code {exc})'))
         elif not eqf:
             bad.append((k, 'isophote table differs from a fresh Ellipse object\'s'))
+        elif bool(geo.linear_growth) != bool(g0['lin']) or [bool(x) for x in geo.fix] != [bool(x) for x in g0['fix']]:
+            bad.append((k, 'leaves the caller\'s EllipseGeometry overwritten (linear_growth / fix), which later '
+                           'calls then use'))
         obs.append((k, a[0], bool(a[1]), bool(a[2]), bool(a[3]),
                     (eqf, bool(geo.linear_growth), [bool(x) for x in geo.fix])))
     return obs, bad
@@ -905,8 +918,8 @@ def section_ellipse(ctx, cases, meta):
             desc = {'machine': 'Ellipse.fit_image', 'geometry': g0, 'calls': [list(c) for c in h]}
             ctx.count_case(desc, len(h) > 1)
             ctx.stat('ellipse', f"lin0={g0['lin']},fix0={any(g0['fix'])}")
-            for (k, what) in bad:
-                ctx.violation('Ellipse.fit_image:geometry-persists',
+            for (k, what) in sorted(bad, key=lambda b: (0 if 'table differs' in b[1] else 1, b[0])):
+                report(ctx, 'Ellipse.fit_image:geometry-persists',
                               f'Ellipse.fit_image call {k} {what}; calls (linear, fix_center, fix_pa, fix_eps) = {h[:k + 1]}',
                               dict(desc, step=k, cmd='bin/check C09 --replay <this file>'))
             cases.append(f"CEll {coq(g0['lin'])} {coq([bool(x) for x in g0['fix']])} {coq(obs)}")
@@ -966,7 +979,7 @@ def section_grid(ctx, cases, meta):
             fv = grid_eval(grid_make(cfg), xy)
             eqf = exc == 0 and same(v, fv)
             if exc or not eqf:
-                ctx.violation('GriddedPSFModel.evaluate:after-earlier-evaluations',
+                report(ctx, 'GriddedPSFModel.evaluate:after-earlier-evaluations',
                               f'GriddedPSFModel.evaluate at {xy} ' + ('raises' if exc else 'differs from a fresh model') +
                               f' after evaluations at {h[:-1]}', {'machine': 'GriddedPSFModel', 'config': cfg, 'xy': h})
             obs.append((int(2 * xy[0]), int(2 * xy[1]), eqf,
@@ -1027,7 +1040,7 @@ def run(ctx):
             continue          # the direct oracle already reported the concrete input
         detail = {'case': desc, 'coq_case': cases[i][:4000],
                   'model': ctx.coq_eval_term(['C09_Model'], f'model_out ({cases[i]})') if len(cases[i]) < 20000 else None}
-        ctx.violation(f'correspondence:C09_Model.check_case:{kind}',
+        report(ctx, f'correspondence:C09_Model.check_case:{kind}',
                       'model and implementation disagree on exception / cache keys / private state while every '
                       'value equals a fresh object\'s', detail, found_input=False)
 
